@@ -297,7 +297,7 @@ def typed_consumers(ctx):
 
 
 def run(ctx):
-    ctx.check_proofs(["MPilot.Props.C01"])
+    ctx.check_proofs(["MPilot.Props.C01", "MPilot.Props.C01Hist"])
     model = common.Model()
     scs = scenarios(ctx)
     classes = decl_classes()
